@@ -111,7 +111,7 @@ def run(ctx):
         if toks is None:
             continue
         store = rnd.choice(progsuite.STORES)
-        inp = rnd.choice(proggen.INPUTS)
+        inp = rnd.choice(proggen.LOOP_INPUTS if stream == 'loops' else proggen.INPUTS)
         base = add(src, store, inp)
         vs = []
         if ctx.tier == 'quick' and stream in ('pairs', 'logic', 'loops') and i % 4 != 0:
